@@ -78,6 +78,7 @@ type Unit struct {
 	loopFirst  [][2]*Term
 	symAddrs   []*Term
 	recFuel    map[*specFunc]int
+	assertHit  map[*Clause]bool
 }
 
 func (e *Engine) NewUnit(fn *ssa.Function, bc *BoundContract) *Unit {
@@ -948,9 +949,21 @@ func (fr *frame) frameCheck(st *State, a *Term, t types.Type, pos token.Pos) {
 	if u.specMode > 0 {
 		return
 	}
+	if a.Op == OpIte {
+		// an address that is one of two alternatives: each is checked under its condition
+		s1 := st.clone()
+		s1.pc = u.C.And(st.pc, a.Args[0])
+		fr.frameCheck(s1, a.Args[1], t, pos)
+		s2 := st.clone()
+		s2.pc = u.C.And(st.pc, u.C.Not(a.Args[0]))
+		fr.frameCheck(s2, a.Args[2], t, pos)
+		return
+	}
 	freshID := 0
 	if r, rk := addrRoot(a); rk == 1 && r.K > 0 {
 		freshID = r.K // object allocated during this call
+	} else if rk == 5 {
+		return // anonymous array allocated by an earlier loop iteration: in no frame, contents unconstrained
 	}
 	// all leaf cells written
 	check := func(reg *Region, kind, label string, minFresh int) {
@@ -1102,6 +1115,13 @@ func (fr *frame) unop(st *State, x *ssa.UnOp) Val {
 			return v
 		}
 		a := av.(*Term)
+		if g, ok := x.X.(*ssa.Global); ok && u.E.roGlobals[g.Pkg.Pkg.Path()+"."+g.Name()] {
+			// a read-only package variable initialised with a function (var F = pkg.F) denotes that function
+			if gi := u.E.globalInitOf(g); gi.ok && gi.fn != nil {
+				u.Trusted["read-only global "+g.Pkg.Pkg.Path()+"."+g.Name()+": bound to "+gi.fn.String()+" by its initialiser (no writer found by scan of the package)"] = true
+				return &FuncV{Fn: gi.fn}
+			}
+		}
 		fr.nilCheck(st, a, x.Pos())
 		return u.load(st, a, x.Type())
 	case token.NOT:
@@ -1463,6 +1483,11 @@ func (fr *frame) assertsAtCall(st *State, x *ssa.Call) {
 	} else if f := x.Call.StaticCallee(); f != nil {
 		name = f.Name()
 		qual = f.String()
+	} else if ld, ok := x.Call.Value.(*ssa.UnOp); ok && ld.Op == token.MUL {
+		if g, ok := ld.X.(*ssa.Global); ok { // call through a package-level function variable
+			name = g.Name()
+			qual = g.Pkg.Pkg.Path() + "." + g.Name()
+		}
 	}
 	if name == "" {
 		return
@@ -1472,6 +1497,10 @@ func (fr *frame) assertsAtCall(st *State, x *ssa.Call) {
 		if as.Clause.Name != "call:"+name && as.Clause.Name != "call:"+qual {
 			continue
 		}
+		if fr.u.assertHit == nil {
+			fr.u.assertHit = map[*Clause]bool{}
+		}
+		fr.u.assertHit[as.Clause] = true
 		if env == nil {
 			env = fr.specEnv(fr.bc, st)
 			env.ctx = x.Block()
